@@ -388,7 +388,61 @@ def law_L8(rng: random.Random, out: Dict[str, Any]) -> None:
             return
 
 
-LAWS = ['L1', 'L2', 'L3', 'L4', 'L5', 'L6', 'L7', 'L8']
+def law_L9(rng: random.Random, out: Dict[str, Any]) -> None:
+    """build() with the optional arguments the product's own callers pass (disable_headers, host=... as the reverse proxy
+    does).  The result must parse to the same message except for exactly the requested edits; the arguments must not be
+    modified; and a plain build() afterwards - of this and of an unrelated message - must be what it was before the call."""
+    from proxy.common import constants
+    fr = rng.choice(['none', 'cl', 'chunked'])
+    body = b'' if fr == 'none' else G.body_bytes(rng, rng.choice([1, 5, 300]))
+    m = G.gen_request(rng, target=rng.choice([b'/a/b?c=d', b'http://h.test/a/b?c=d', b'http://h.test:81/']), host_header=b'h.test',
+                      framing=fr, body=body)
+    other = G.gen_request(rng, target=b'/other', host_header=b'other.test', framing='none', body=b'')
+    p = HttpParser.request(m.raw)
+    po = HttpParser.request(other.raw)
+    out['nontrivial'] = True
+    if not p.is_complete or not po.is_complete:
+        out['bad'].append(('parse-incomplete', p.state))
+        return
+    plain_before = p.build()
+    other_before = po.build()
+    names = [k for k in (p.headers or {}) if k not in (b'host', b'content-length', b'transfer-encoding')]
+    use_host = rng.random() < 0.6
+    use_disable = rng.random() < 0.6
+    disabled = [rng.choice(names)] if (use_disable and names) else ([] if use_disable else None)
+    arg = list(disabled) if disabled is not None else None
+    new_host = b'up-%d.test:8%d' % (rng.randint(0, 99), rng.randint(0, 99))
+    default_before = list(constants.DEFAULT_DISABLE_HEADERS)
+    out['cls'] = 'host=%s,disable=%s' % ('y' if use_host else 'n', 'none' if disabled is None else len(disabled))
+    out['input'] = {'message': m.raw[:300], 'host': new_host if use_host else None, 'disable_headers': disabled}
+    z = p.build(disable_headers=arg, host=new_host if use_host else None)
+    q = HttpParser.request(z)
+    want = hmap(p.headers)
+    for d in (disabled or []):
+        want.pop(d, None)
+    if use_host:
+        want[b'host'] = new_host
+    if not (q.is_complete and q.method == p.method and q.path == p.path and q.version == p.version and (q.body or b'') == (p.body or b'')):
+        out['bad'].append(('edited-rebuild-differs-beyond-the-edit', {'z': z[:300]}))
+    elif hmap(q.headers) != want:
+        got = hmap(q.headers)
+        out['bad'].append(('edited-rebuild-headers', {k.decode('latin-1'): (want.get(k), got.get(k)) for k in set(want) | set(got) if want.get(k) != got.get(k)}))
+    msgs, err, left = h11util.parse_requests(z)
+    if err or len(msgs) != 1 or not msgs[0]['complete'] or left:
+        out['bad'].append(('edited-rebuild-h11-rejects', err or 'msgs=%d left=%d' % (len(msgs), len(left))))
+    if arg is not None and arg != disabled:
+        out['bad'].append(('caller-disable-headers-list-modified', {'before': disabled, 'after': arg}))
+    if list(constants.DEFAULT_DISABLE_HEADERS) != default_before:
+        out['bad'].append(('shared-default-disable-headers-modified', {'before': default_before, 'after': list(constants.DEFAULT_DISABLE_HEADERS)}))
+        del constants.DEFAULT_DISABLE_HEADERS[:]
+        constants.DEFAULT_DISABLE_HEADERS.extend(default_before)     # undo, so later cases in this process start clean
+    if p.build() != plain_before:
+        out['bad'].append(('plain-build-changed-after-edited-build', {'before': plain_before[:200], 'after': p.build()[:200]}))
+    if po.build() != other_before:
+        out['bad'].append(('plain-build-of-unrelated-message-changed', {'before': other_before[:200], 'after': po.build()[:200]}))
+
+
+LAWS = ['L1', 'L2', 'L3', 'L4', 'L5', 'L6', 'L7', 'L8', 'L9']
 
 
 def run_case(case: Dict[str, Any]) -> Dict[str, Any]:
@@ -424,7 +478,7 @@ def cases(tier: str, seed: int):
 
 
 def floors(tier: str) -> Dict[str, int]:
-    fl = {'distinct:classes': 35, 'L5_chunk_sizes': 2000}
+    fl = {'distinct:classes': 38, 'L5_chunk_sizes': 2000}
     for l in LAWS:
         fl['law:' + l] = 300
     return fl
